@@ -93,16 +93,22 @@ pub fn encode(asm: &mut Assembler, value: &DataType) -> Result<(), RtcmError> {
         }
     }
     //encode satellite length
+    if sat_num > 63 {
+        return Err(RtcmError::CapacityExceeded);
+    }
     asm.put::<U8>(sat_num, 6)?;
 
     for s in 0..=63u8 {
         if sat_mask & (1 << s) != 0 {
             asm.put::<U8>(s, 6)?;
-            let num_biases: u8 = value
+            let num_biases = value
                 .iter()
                 .filter(|b| b.satellite_id == s && to_id(b.signal_id).is_some())
-                .count() as u8;
-            asm.put::<U8>(num_biases, 5)?;
+                .count();
+            if num_biases > 31 {
+                return Err(RtcmError::CapacityExceeded);
+            }
+            asm.put::<U8>(num_biases as u8, 5)?;
             let mut bias_mask: u32 = 0;
             for bias in value.iter().filter(|b| b.satellite_id == s) {
                 if let Some(sig_id) = to_id(bias.signal_id) {
